@@ -15,10 +15,22 @@ Two exhaustive enumerations:
           detrend_data with illegal arguments, raised and caught by the caller as in a notebook): nothing was
           preprocessed, so the split must still be the split of the records handed in and the identification must
           still be exact ("class-after-failed-prep").
+          On another fixed subset a fourth pass goes through a ROUND TRIP of the multi-setup object (gen.save_to_file +
+          gen.load_from_file, pickle.dumps + loads, copy.deepcopy, copy.copy, in rotation): the algorithm is added to the
+          object that came back and judged as on the class route ("class-after-round-trip"); and, after one SUCCESSFUL
+          preprocessing step (decimate / filter / detrend, nine legal calls in rotation) followed by a round trip, `data` of
+          the returned object must be the split of its own `datasets`, which must be the records (and fs) of the object
+          that went in ("split-after-step-and-round-trip"). The split enumeration has the same third route (every layout
+          once: construct, step or none, round trip, `.data`).
 """
+import copy
 import functools
 import itertools
 import math
+import os
+import pickle
+import shutil
+import tempfile
 
 import numpy as np
 
@@ -32,7 +44,11 @@ TECHNIQUE = ("complete enumeration of all ordered reference subsets for every ch
 LEVEL_TEXT = ("split: decided for every layout in the stated scope, exact equality; identification: every lattice point "
               "executed on the real code through both routes and compared with the known global system; on 2 of 7 lattice "
               "points (by index) additionally through the class route on an object that has seen one or two failed "
-              "(raised and caught) preprocessing calls, every member of a stated list of illegal calls in rotation")
+              "(raised and caught) preprocessing calls, every member of a stated list of illegal calls in rotation; on another 2 of 7 "
+              "lattice points through a round trip of the multi-setup object (four ways, in rotation), with the identification "
+              "made on the returned object and the split clause judged exactly on the object returned after a successful "
+              "preprocessing step (nine legal calls in rotation); split: additionally every layout once through construct, "
+              "step or none, round trip, .data")
 RULE = ("split: one case = (channel count, ordered reference list, length of the dataset list, position in it); "
         "non-trivial = the reference list is not the ascending prefix 0..k-1. ident: one case = one lattice point; "
         "non-trivial = m >= 2, or references not at the first channel positions, or some per-setup gain != 1; "
@@ -47,6 +63,7 @@ ASSUMPTIONS = [
     "the results are read at order 2m; the largest order asked for (ordmax) rotates on the lattice index over 2m, 2m+2 and the two ends of the band br*nref < ordmax <= (br+1)*nref in which the reference block used for re-basing each setup is wide instead of tall (the library accepts it: its Hankel matrix has br+1 block rows)",
     "damping profile, fs and the record lengths of the setups are assigned by fixed rotation on the lattice index; quick additionally rotates the pole placement and the non-unit gain assignments (thorough: all placements, all four gain assignments)",
     "the 'after every preprocessing step' clause of the split is covered for SUCCESSFUL steps by C14's BFS, not here; here: preprocessing calls that raise (FAILING: illegal q / n / ftype / keyword / axis, cut-off outside (0, fs/2), unknown band or trend type, break point or filter padding beyond the shortest record - the last two fail only at the shortest record, i.e. after earlier records of the list have been processed when there are >= 3 setups) and are caught by the caller leave nothing preprocessed: the records are still the noise-free responses of the premise, so the split and the identification are judged exactly as on a fresh object",
+    "round trip of the multi-setup object (save_to_file + load_from_file, pickle.dumps + loads, copy.deepcopy, copy.copy): the object that comes back is judged as a multi-setup object of the premise - without a preprocessing step its records are the free decays, so the identification made on it is judged exactly as on the class route; after a successful preprocessing step (PREPS: legal calls only) the records are no longer free decays (filters have transients, decimation aliases the modes above the new Nyquist frequency), so only the split clause is judged there: `data` of the returned object equals the statement's split of its own `datasets`, which equal the records of the object that went in, fs and dt included - exact equality, no tolerance; what the step does to the records is C14's business",
     "whether a call of FAILING raises is decided by scipy's argument checking, not by the property: a call that is accepted is counted (failed-prep:accepted:*), the object is not judged, and the vacuity monitors demand raised calls of all three methods",
 ]
 
@@ -60,7 +77,9 @@ GAINS = {"unit": (1.0, 1.0, 1.0, 1.0), "g1": (1e-2, 1e2, -1e-1, 1.0), "g2": (1e2
 METHODS = ("cov_mm", "dat")
 NREC = (1000, 1300, 900, 1100)
 FS = (102.4, 12.5)           # non-integer sampling rates
-CLASSES = (("raises", "raises"), ("split", "records-changed-by-failed-call"), ("table-shape", "layout"), ("shape-dim", "layout"), ("mpe-type", "layout"),
+RT_CLASSES = (("rt-raises", "raises"), ("prep-split", "split-wrong-after-the-step"), ("rt-type", "returned-object"),
+              ("rt-state", "returned-object-holds-other-records-or-fs"), ("rt-split", "returned-split-not-of-its-own-datasets"))
+CLASSES = (("raises", "raises"), ("split", "records-changed-by-failed-call")) + RT_CLASSES + (("table-shape", "layout"), ("shape-dim", "layout"), ("mpe-type", "layout"),
            ("mpe-shape", "layout"), ("count", "poles"), ("pairing", "poles"), ("lam", "poles"), ("fn", "poles"),
            ("xi", "poles"), ("mpe-fn", "poles"), ("mpe-xi", "poles"), ("mac", "shape"), ("mpe-mac", "shape"),
            ("norm", "normalisation"), ("mpe-norm", "normalisation"), ("gain", "gain-dependent"))
@@ -105,7 +124,7 @@ def model_split(datasets, reflist):
     return out
 
 
-def _same(got, want):
+def _same(got, want, enc=True):
     if not isinstance(got, (list, tuple)) or len(got) != len(want):
         return f"{type(got).__name__} of length {len(got) if hasattr(got, '__len__') else '?'}, expected list of {len(want)}"
     for j, (g, w) in enumerate(zip(got, want)):
@@ -117,9 +136,165 @@ def _same(got, want):
                 return f"setup {j} '{key}': shape {a.shape}, expected {w[key].shape}"
             if not np.array_equal(a, w[key]):
                 bad = np.argwhere(a != w[key])[0]
+                if not enc:
+                    return (f"setup {j} '{key}'[{bad[0]},{bad[1]}] = {a[tuple(bad)]!r}, expected {w[key][tuple(bad)]!r} "
+                            f"({int((a != w[key]).sum())} of {a.size} samples differ)")
                 return (f"setup {j} '{key}'[{bad[0]},{bad[1]}] = {a[tuple(bad)]:.0f} (dataset*10000+channel*100+time), "
                         f"expected {w[key][tuple(bad)]:.0f}")
     return None
+
+
+# ---------------------------------------------------------------------------------------------------------------------
+# round trip of the multi-setup object (used by both enumerations). A user saves the object and loads it in the next
+# session (gen.save_to_file / gen.load_from_file, i.e. pickle), or copies it to try something on the copy. What comes back
+# is a multi-setup object like any other: its `data` must be the split of its own `datasets` ("... and after every
+# preprocessing step"), and the algorithms added to it see that split and its `fs`.
+# SUCCESSFUL preprocessing steps (legal arguments; functions of the sampling rate and of the shortest record only):
+PREPS = (
+    ("decimate:q=2", "decimate_data", lambda fs, Nmin: dict(q=2)),
+    ("filter:lowpass", "filter_data", lambda fs, Nmin: dict(Wn=fs / 8, order=4)),
+    ("detrend:linear", "detrend_data", lambda fs, Nmin: dict()),
+    ("decimate:q=3,fir", "decimate_data", lambda fs, Nmin: dict(q=3, ftype="fir", n=12)),
+    ("filter:bandpass", "filter_data", lambda fs, Nmin: dict(Wn=(fs / 32, fs / 4), order=2, btype="bandpass")),
+    ("detrend:constant", "detrend_data", lambda fs, Nmin: dict(type="constant")),
+    ("decimate:q=2,causal", "decimate_data", lambda fs, Nmin: dict(q=2, zero_phase=False)),
+    ("filter:highpass", "filter_data", lambda fs, Nmin: dict(Wn=fs / 16, order=2, btype="highpass")),
+    ("detrend:breakpoint", "detrend_data", lambda fs, Nmin: dict(bp=Nmin // 2)),
+)
+ROUND_TRIPS = ("gen.save_to_file+gen.load_from_file", "pickle.dumps+pickle.loads", "copy.deepcopy", "copy.copy")
+
+
+def _round_trip(ms, r):
+    from pyoma2.functions import gen
+
+    if r == 0:
+        d = tempfile.mkdtemp(prefix="c03-rt-")
+        try:
+            path = os.path.join(d, "setup.pkl")
+            gen.save_to_file(ms, path)
+            return gen.load_from_file(path)
+        finally:
+            shutil.rmtree(d, ignore_errors=True)
+    if r == 1:
+        return pickle.loads(pickle.dumps(ms))
+    if r == 2:
+        return copy.deepcopy(ms)
+    if r == 3:
+        return copy.copy(ms)
+    raise ValueError(r)
+
+
+def _returned(ms2, live_fs, live_dt, live_datasets, ref_ind):
+    """The object that came back from a round trip against the one that went in (fs, dt and records as they were at that
+    moment) and against itself (data = split of its own datasets). Exact equality."""
+    from pyoma2.setup import MultiSetup_PreGER
+
+    if not isinstance(ms2, MultiSetup_PreGER):
+        return [("rt-type", f"the round trip returned a {type(ms2).__name__}")]
+    probs = []
+    if not (ms2.fs == live_fs and ms2.dt == live_dt):
+        probs.append(("rt-state", f"returned object has fs={ms2.fs!r}, dt={ms2.dt!r}; the object that went in had fs={live_fs!r}, dt={live_dt!r}"))
+    ds = ms2.datasets
+    if not (isinstance(ds, (list, tuple)) and len(ds) == len(live_datasets)
+            and all(isinstance(a, np.ndarray) and a.shape == b.shape for a, b in zip(ds, live_datasets))):
+        return probs + [("rt-state", "the datasets of the returned object do not have the layout of the records that went in")]
+    if not all(np.array_equal(a, b) for a, b in zip(ds, live_datasets)):
+        probs.append(("rt-state", "the datasets of the returned object are not the records of the object that went in"))
+    why = _same(ms2.data, model_split(ds, ref_ind), enc=False)
+    if why:
+        probs.append(("rt-split", f"`data` of the returned object is not the split of its own `datasets`: {why}"))
+    return probs
+
+
+def prep_then_round_trip(t, ms, p, r, fs0, ref_ind, tag):
+    """Optionally (p is not None) one successful preprocessing step on ms, then round trip r. Judged: the split of the live
+    object after the step, and the returned object (_returned). Returns (returned object or None, problems, text)."""
+    note = []
+    try:
+        before = [np.array(d, copy=True) for d in ms.datasets]
+        if p is not None:
+            label, method, kw = PREPS[p]
+            kw = kw(fs0, min(d.shape[0] for d in before))
+            t.evaluations += 1
+            getattr(ms, method)(**kw)
+            note.append(f"{method}({', '.join(f'{a}={b!r}' for a, b in kw.items())})")
+            t.outcomes[f"{tag}:step:{method}"] += 1
+            t.outcomes[f"{tag}:step:{label}"] += 1
+            if any(a.shape != b.shape or not np.array_equal(a, b) for a, b in zip(ms.datasets, before)):
+                t.outcomes[f"{tag}:the-step-changed-the-records"] += 1
+            if ms.fs != fs0:
+                t.outcomes[f"{tag}:the-step-changed-fs"] += 1
+            why = _same(ms.data, model_split(ms.datasets, ref_ind), enc=False)
+            if why:
+                return None, [("prep-split", f"split after the step: {why}")], "; ".join(note)
+        else:
+            t.outcomes[f"{tag}:step:none"] += 1
+        live = (ms.fs, ms.dt, [np.array(d, copy=True) for d in ms.datasets])
+        t.evaluations += 1
+        ms2 = _round_trip(ms, r)
+        note.append(ROUND_TRIPS[r])
+        t.outcomes[f"{tag}:via:{ROUND_TRIPS[r]}"] += 1
+        if p is not None:
+            t.outcomes[f"{tag}:{PREPS[p][1]} then {ROUND_TRIPS[r]}"] += 1
+        probs = _returned(ms2, live[0], live[1], live[2], ref_ind)
+    except Exception as e:
+        return None, [("rt-raises", f"{type(e).__name__}: {str(e)[:160]}")], "; ".join(note + ["raised"])
+    if not probs:
+        t.outcomes[f"{tag}:returned-object-consistent"] += 1
+    return ms2, probs, "; ".join(note)
+
+
+def _rt_class(probs):
+    seen = {p[0] for p in probs}
+    return next((v for k, v in RT_CLASSES if k in seen), "other")
+
+
+def split_rt_plan(idx):
+    """Third route of the split enumeration: every layout once (the list length / position of the layout rotate with the
+    layout number), a step of PREPS or none and the round trip by rotation on the layout number."""
+    lay, combo = divmod(idx, 6)
+    if combo != lay % 6:
+        return None
+    p = lay % (len(PREPS) + 1)
+    r = (lay // (len(PREPS) + 1) + lay) % len(ROUND_TRIPS)
+    return (None if p == len(PREPS) else p), r
+
+
+def encoded_long(j, n, N):
+    """encoded() plus a small integer term that is neither constant nor linear in time and differs between the channels
+    (so that detrending does not make the channels equal); exact in floating point."""
+    return encoded(j, n, N) + ((np.arange(N)[:, None] * (np.arange(n)[None, :] + 2)) % 5) ** 2.0
+
+
+def run_split_rt(t, case, seed, lay, plan):
+    from pyoma2.setup import MultiSetup_PreGER
+
+    p, r = plan
+    data = [encoded_long(j, n, 40 + j) for j, (n, _) in enumerate(lay)]
+    refl = [list(rf) for _, rf in lay]
+    pristine = [d.copy() for d in data]
+    t.transitions += 1
+    try:
+        ms = MultiSetup_PreGER(fs=100.0, ref_ind=refl, datasets=data)
+    except Exception as e:
+        t.violation(f"split:round-trip:raises:{type(e).__name__}",
+                    f"MultiSetup_PreGER raised {type(e).__name__}: {str(e)[:160]} for layouts (n, refs) {lay}", dict(case, seed=seed))
+        return
+    ms2, probs, note = prep_then_round_trip(t, ms, p, r, 100.0, [list(rf) for _, rf in lay], "split:round-trip")
+    t.validated += 1
+    if not probs and p is None:
+        why = _same(ms2.data, model_split(pristine, [list(rf) for _, rf in lay]), enc=False)
+        if why:
+            probs = [("rt-split", f"no step before the round trip: {why}")]
+    if not probs and not all(np.array_equal(a, b) for a, b in zip(data, pristine)):
+        probs = [("rt-state", "a user dataset was modified")]
+    if probs:
+        t.violation(f"split:round-trip:{_rt_class(probs)}",
+                    f"MultiSetup_PreGER, {note}: " + "; ".join(q[1] for q in probs[:3]) + f"; layouts (n, refs) {lay}",
+                    dict(case, seed=seed))
+        t.outcomes["split:round-trip:disagree"] += 1
+    else:
+        t.outcomes["split:round-trip:agree"] += 1
 
 
 def run_split(t, case, seed):
@@ -160,6 +335,9 @@ def run_split(t, case, seed):
             t.outcomes["split:disagree"] += 1
         else:
             t.outcomes[f"split:agree:{route}"] += 1
+    plan = split_rt_plan(case["idx"])
+    if plan is not None:
+        run_split_rt(t, case, seed, lay, plan)
     if case["idx"] in (0, 700, 5000):
         t.sample({"split_case": case["layouts"], "ref_rows_expected": "channels in listed order", "mov_rows_expected": "remaining, ascending"})
 
@@ -417,6 +595,29 @@ def _failed_prep(t, ms, plan, fs, Ns):
     return "; ".join(done), None
 
 
+RT_ROUTE = "class-after-round-trip"
+RT_SPLIT = "split-after-step-and-round-trip"
+
+
+def round_trip_plan(idx, gi):
+    """What the object of lattice point idx, gain assignment number gi, goes through on the round-trip route: None for 5 of 7
+    lattice points (the other two are not those of the failed-preprocessing route).
+      idx % 7 == 2  ("ident", r1, p, r2): round trip r1 of the fresh object; the algorithm is added to the RETURNED object and
+                    judged as on the class route (tables, gain invariance, mpe); then step p of PREPS on that object, round
+                    trip r2 (the algorithm and its results travel along), and the split clause on what comes back;
+      idx % 7 == 5  ("step-first", r1, p, None): step p on the fresh object, round trip r1, split clause on what comes back
+                    (no identification: the records are no longer the free decays of the premise).
+    With j = index // 7: step (j + gain number) % 9, round trip (j // 9 + gain number) % 4, second round trip another one,
+    its distance rotating with j // 36: every (step, round trip) pair occurs."""
+    if idx % 7 not in (2, 5):
+        return None
+    j = idx // 7
+    p = (j + gi) % len(PREPS)
+    r1 = (j // len(PREPS) + gi) % len(ROUND_TRIPS)
+    r2 = (r1 + 1 + (j // (len(PREPS) * len(ROUND_TRIPS))) % (len(ROUND_TRIPS) - 1)) % len(ROUND_TRIPS)
+    return ("ident", r1, p, r2) if idx % 7 == 2 else ("step-first", r1, p, None)
+
+
 def run_ident(t, case, seed):
     from pyoma2.algorithms import SSIcov_MS, SSIdat_MS
     from pyoma2.functions import ssi
@@ -457,11 +658,12 @@ def run_ident(t, case, seed):
     for gname in case["gains"]:
         gains = GAINS[gname][:nset]
         plan = failed_prep_plan(case["idx"], list(GAINS).index(gname))
+        rt = round_trip_plan(case["idx"], list(GAINS).index(gname))
         t.outcomes["gain:" + ("unit" if gname == "unit" else "non-unit")] += 1
         datasets = [gains[s] * setups[s]["Y"] for s in range(nset)]
         ref_ind = [[int(c) for c in su["refpos"]] for su in setups]
         _collider(seed, [d.shape for d in datasets], ref_ind, fs, br, om, meth)
-        for route in ("func", "class") + ((FP_ROUTE,) if plan else ()):
+        for route in ("func", "class") + ((FP_ROUTE,) if plan else ()) + ((RT_ROUTE,) if rt else ()):
             matched = []
             res = None
             alg = ms = None
@@ -490,6 +692,18 @@ def run_ident(t, case, seed):
                             judge(t, case, seed, route, gname, [("split", f"split after the failed call(s): {why}")], {}, note)
                             continue
                         t.outcomes["failed-prep:split-intact"] += 1
+                    if route == RT_ROUTE:
+                        t.outcomes[f"round-trip:{rt[0]}"] += 1
+                        if rt[0] == "step-first":
+                            # a successful preprocessing step, then the round trip: the split clause on the returned object
+                            _, rprobs, note = prep_then_round_trip(t, ms, rt[2], rt[1], fs, ref_ind, "round-trip")
+                            judge(t, case, seed, RT_SPLIT, gname, rprobs, {}, note)
+                            continue
+                        # round trip of the fresh object; the analysis goes on with the object that came back
+                        ms, rprobs, note = prep_then_round_trip(t, ms, None, rt[1], fs, ref_ind, "round-trip")
+                        if rprobs:
+                            judge(t, case, seed, route, gname, rprobs, {}, note)
+                            continue
                     cls = SSIcov_MS if meth == "cov_mm" else SSIdat_MS
                     alg = cls(name="a", method=meth, br=int(br), ordmax=int(om), hc=dict(HC))
                     ms.add_algorithms(alg)
@@ -517,7 +731,7 @@ def run_ident(t, case, seed):
             if probs and route == FP_ROUTE:
                 note += f" (the object now has fs={ms.fs!r}, dt={ms.dt!r}; built with fs={fs!r})"
             judge(t, case, seed, route, gname, probs, errs, note)
-            if not probs and route != FP_ROUTE:
+            if not probs and route in ("func", "class"):
                 # second identification of the SAME record objects (no copies in between): still exact, i.e. the first one did
                 # not alter the records it was given (func: the list of ref/mov dicts; class: the data bound to the setup)
                 try:
@@ -541,7 +755,7 @@ def run_ident(t, case, seed):
                           "true_fn": S.fn, "identified_fn_at_order_2m": np.sort(np.asarray(Fn)[:, o]), "max_rel_err": errs,
                           "guards": g})
             if route != "func":
-                mpe_route = "mpe" if route == "class" else "mpe-after-failed-prep"
+                mpe_route = {"class": "mpe", FP_ROUTE: "mpe-after-failed-prep", RT_ROUTE: "mpe-after-round-trip"}[route]
                 if probs:
                     t.not_judged += 1
                     t.outcomes[f"{mpe_route}:not-judged(tables wrong)"] += 1
@@ -554,6 +768,11 @@ def run_ident(t, case, seed):
                 except Exception as e:
                     res = ([("raises", f"{type(e).__name__}: {str(e)[:160]}")], {})
                 judge(t, case, seed, mpe_route, gname, *res, note)
+                if route == RT_ROUTE and not res[0]:
+                    # the analysis continues on the returned object: a preprocessing step, and another round trip (the
+                    # algorithm and its results travel along); the split clause on what comes back
+                    _, rprobs, note2 = prep_then_round_trip(t, ms, rt[2], rt[3], fs, ref_ind, "round-trip")
+                    judge(t, case, seed, RT_SPLIT, gname, rprobs, {}, note + "; mpe; " + note2)
 
 
 _NOISE = {}
@@ -615,14 +834,23 @@ def explore(ctx):
         "split": {"channel_counts": [2, 6], "reference_lists": "every ordered subset of size 1..n-1",
                   "layouts": len(split_layouts()), "dataset_list_lengths": [1, 2, 3],
                   "position_of_the_layout_in_the_list": "every position; companions with the same reference count by fixed rotation",
-                  "routes": ["gen.pre_multisetup", "MultiSetup_PreGER(...).data"], "cases": len(sp)},
+                  "routes": ["gen.pre_multisetup", "MultiSetup_PreGER(...).data",
+                             "MultiSetup_PreGER(...), one step of PREPS or none, round trip, .data of the returned object (every layout once; records of 40.. samples)"],
+                  "round_trip_objects": sum(1 for c in sp if split_rt_plan(c["idx"])), "cases": len(sp)},
         "ident": {"modes_m": [1, 5] if ctx.thorough else [1, 3], "setups": [2, 3, 4], "references": [1, 2, 3],
                   "roving_profile": {k: list(v) for k, v in ROVING.items()}, "reference_placement": list(PLACES),
                   "gain_assignments": {k: list(v) for k, v in GAINS.items()},
                   "gains_per_case": "all four" if ctx.thorough else "unit + one of g1..g3 by rotation",
                   "block_rows": "max(ceil(2m/n_ref) + 1, 3) + offset, offset in [0, 2]", "method": list(METHODS),
                   "shapes": ["real", "complex"], "routes": ["MultiSetup_PreGER+SSIcov_MS|SSIdat_MS+mpe", "SSI_multi_setup+SSI_poles",
-                                                                "MultiSetup_PreGER, failed preprocessing call(s), then +SSIcov_MS|SSIdat_MS+mpe"],
+                                                                "MultiSetup_PreGER, failed preprocessing call(s), then +SSIcov_MS|SSIdat_MS+mpe",
+                                                                "MultiSetup_PreGER, round trip, then +SSIcov_MS|SSIdat_MS+mpe on the returned object, then a preprocessing step, round trip, .data",
+                                                                "MultiSetup_PreGER, a preprocessing step, round trip, .data of the returned object"],
+                  "round_trip": {
+                      "where": "lattice points with index % 7 == 2 (round trip, identification on the returned object, then step + round trip + split clause) and == 5 (step, round trip, split clause), every gain assignment of the point, fresh object",
+                      "round_trips": list(ROUND_TRIPS), "successful_steps": [f"{f[1]}: {f[0].split(':', 1)[1]}" for f in PREPS],
+                      "rotation": "with j = index // 7: step (j + gain number) % 9, round trip (j // 9 + gain number) % 4, second round trip a different one (distance by j // 36)",
+                      "objects": sum(1 for c in idc for gn in c["gains"] if round_trip_plan(c["idx"], list(GAINS).index(gn)))},
                   "failed_preprocessing": {
                       "where": "lattice points with index % 7 in (1, 4), every gain assignment of the point, fresh object, before add_algorithms",
                       "calls": [f"{f[1]}: {f[0].split(':', 1)[1]}" for f in FAILING],
@@ -645,7 +873,16 @@ def explore(ctx):
                 FP_ROUTE + ":agree", "mpe-after-failed-prep:agree", FP_ROUTE + ":gain-invariance-compared", "failed-prep:split-intact",
                 "failed-prep:raised:decimate_data", "failed-prep:raised:filter_data", "failed-prep:raised:detrend_data",
                 "failed-prep:calls=1", "failed-prep:calls=2",
-                "failed-prep:raised-at-a-later-record(earlier records of the list had gone through)")
+                "failed-prep:raised-at-a-later-record(earlier records of the list had gone through)",
+                RT_ROUTE + ":agree", "mpe-after-round-trip:agree", RT_ROUTE + ":gain-invariance-compared", RT_SPLIT + ":agree",
+                "round-trip:ident", "round-trip:step-first", "round-trip:step:none", "round-trip:returned-object-consistent",
+                "round-trip:the-step-changed-the-records", "round-trip:the-step-changed-fs",
+                "split:round-trip:agree", "split:round-trip:step:none", "split:round-trip:the-step-changed-the-records",
+                "split:round-trip:the-step-changed-fs",
+                *[f"{tag}:via:{r}" for tag in ("round-trip", "split:round-trip") for r in ROUND_TRIPS],
+                *[f"{tag}:step:{f[0]}" for tag in ("round-trip", "split:round-trip") for f in PREPS],
+                *[f"{tag}:{me} then {r}" for tag in ("round-trip", "split:round-trip")
+                  for me in ("decimate_data", "filter_data", "detrend_data") for r in ROUND_TRIPS])
 
 
 def replay(case):
